@@ -132,6 +132,7 @@ void live_snapshot(std::vector<std::pair<void*, AllocInfo>>& out);
 const AllocInfo* live_find(const void* p);
 void reuse_reset(bool on);      // allocator reuse mode for this run (see rt.cc)
 extern bool g_reuse_mode;
+extern uint64_t g_sim_entropy;   // state of the simulated entropy source, seeded per run
 extern int g_fill_byte;        // plan field `fill` (rt.cc)
 void arm_alloc_fault(int kth);   // k-th allocation of the current op fails (0 = none)
 int op_alloc_count();            // allocations attempted so far in the current op
